@@ -341,6 +341,34 @@ class is_flag_active_visitor<Flag, flag_and>""")]),
 
         state_entry_visitor<Event> visitor{self(), event};""")]),
  dict(name='revert-d29-back-raw-stamp-order', prop='C05', rule='C05.seq-order', edits=[(B, """                return static_cast<signed char>(d1.second - d2.second) > 0;""", """                return d1.second > d2.second;""")]),
+ dict(name='revert-d31-mp11-pool-limit-before-seq-advance', prop='C04', rule='C04.pool-loop', edits=[(MP, """            if (!(*result & process_result::HANDLED_DEFERRED))
+            {
+                event_pool.cur_seq_cnt += 1;
+            }
+
+            // Consider anything except "only deferred" to be a processed event.
+            if (*result != process_result::HANDLED_DEFERRED)
+            {
+                processed_events++;
+                if (processed_events == max_events)
+                {
+                    break;
+                }
+            }
+""", """            // Consider anything except "only deferred" to be a processed event.
+            if (*result != process_result::HANDLED_DEFERRED)
+            {
+                processed_events++;
+                if (processed_events == max_events)
+                {
+                    break;
+                }
+            }
+            if (!(*result & process_result::HANDLED_DEFERRED))
+            {
+                event_pool.cur_seq_cnt += 1;
+            }
+""")]),
  dict(name='revert-d20-puml-terminate-suffix', prop='C14', rule='C14.puml', edits=[('include/boost/msm/front/puml/puml.hpp', """cleanup_token(stt().substr(endl_before_pos + 1, arrow_pos - endl_before_pos - 1)) == state_name())""", """cleanup_token(stt().substr(state_pos, arrow_pos - state_pos)) == state_name())""")]),
  dict(name='flagfold-back11-early-break', prop='C17', rule='C17.pure', edits=[(B11, """            res = typename BinaryOp::type() (res,(*flags_entries[ m_states[i] ])(*this));""", """            res = typename BinaryOp::type() (res,(*flags_entries[ m_states[i] ])(*this));
             if (res) break;""")]),
